@@ -3,7 +3,10 @@ CONSTANTS
   MaxPerm = 5
   Span = 12
   MaxShift = 40
-  Fams = {"pair", "flat", "range", "func", "perm", "num", "bits"}
+  Fams = {"pair", "flat", "range", "func", "perm", "num", "bits", "wide", "xperm", "pow", "powbig"}
+  MaxWide = 2
+  MaxXPerm = 3
+  PowExps = {31, 32, 53, 64, 100, 127, 128, 255, 256, 400}
   Export = TRUE
 SPECIFICATION Spec
 INVARIANT TypeOK
@@ -16,4 +19,8 @@ INVARIANT FuncLaws
 INVARIANT PermLaws
 INVARIANT NumLaws
 INVARIANT BitLaws
+INVARIANT WideLaws
+INVARIANT XPermLaws
+INVARIANT AgreeLaws
+INVARIANT PowLaws
 CHECK_DEADLOCK FALSE
